@@ -31,11 +31,13 @@ PROGS = [
                [["rel", fx(5.0), 3, 5]], []]},
 ]
 # the third bound lies beyond the end, the fourth is the start time (0.0 / 0: also falsy values)
-BOUNDS = [[fx(4.0), fx(8.5), fx(15.0), fx(0.0)], [4, 9, 14, 0], [fx(104.0), fx(108.5), fx(130.0), fx(100.0)]]
+# the fifth is exactly the replication end (an exclusive run up to it leaves the events of the end instant pending)
+BOUNDS = [[fx(4.0), fx(8.5), fx(15.0), fx(0.0), fx(10.0)], [4, 9, 14, 0, 10],
+          [fx(104.0), fx(108.5), fx(130.0), fx(100.0), fx(110.0)]]
 ALPHABET = ["init", "start", "step", "stop", "rut0", "rut1", "ruti0", "ruti1", "endrep", "cleanup", "rut2",
-            "badinit", "ruti3"]
+            "badinit", "ruti3", "rut4"]
 
-RULE = ("(A) ALL command sequences over the 13-letter alphabet {initialize, initialize without a model, start, step, stop, run_up_to(t1|t2|t3 beyond the end), run_up_to_including(start time), "
+RULE = ("(A) ALL command sequences over the 14-letter alphabet {initialize, initialize without a model, start, step, stop, run_up_to(t1|t2|t3 beyond the end|the end itself), run_up_to_including(start time), "
         "run_up_to_including(t1|t2), end_replication, cleanup} up to length 4 (quick) / 6 (thorough) on the float model and 3 / 5 on the int model plus Hypothesis "
         "sequences of length <= 10, on three fixed models (a float-clock replication that starts at 100; float clock: events at 1,4,7 and 12 beyond the end 10, warm-up "
         "2.5; int clock: ties and two events at exactly the end); after each command the harness waits for structural "
@@ -56,7 +58,7 @@ ASSUMPTIONS = [
     "cleanup() issued from a listener of a command that is still in progress is outside its documented use and not generated",
 ]
 NONTRIVIAL_FLOOR = 0.15
-EXHAUSTIVE_NOTE = "all command sequences up to length 4 (quick) / 6 (thorough) on the float model and 3 / 5 on the int model over the 13-letter alphabet, all three models"
+EXHAUSTIVE_NOTE = "all command sequences up to length 4 (quick) / 6 (thorough) on the float model and 3 / 5 on the int model over the 14-letter alphabet, all three models"
 
 
 def budget(tier):
@@ -319,6 +321,11 @@ def run_case(case):
                 if (sim.run_state.name, sim.replication_state.name) != (proto.rs, proto.ps):
                     out.fail("state-after-" + cmd, dict(ctx, got=[sim.run_state.name, sim.replication_state.name],
                                                         want=[proto.rs, proto.ps]))
+                # the reported state is one thing, whichever accessor reports it
+                preds = [sim.is_initialized(), sim.is_starting_or_running(), sim.is_stopping_or_stopped()]
+                if preds != [proto.rs != "NOT_INITIALIZED", False, True]:
+                    out.fail("state-predicates-after-" + cmd, dict(ctx, state=proto.rs, got=preds,
+                             accessors=["is_initialized", "is_starting_or_running", "is_stopping_or_stopped"]))
                 if cmd != "cleanup" and enc_obs(sim.simulator_time) != enc_ref(proto.clock):
                     out.fail("clock-after-" + cmd, dict(ctx, got=enc_obs(sim.simulator_time), want=enc_ref(proto.clock)))
                 # (what remains on the event list after the replication ended is not specified)
@@ -402,6 +409,11 @@ def overlap_schedules(tier):
     for before in ("fresh", "initialized", "paused", "ended"):
         for after in ("cleanup", "init", "init+cleanup"):
             rapid.append({"overlap": True, "failed_init": before, "then": after})
+    # end_replication() issued by the handler of the k-th event (the run thread itself): nothing runs afterwards
+    for variant in (0, 1, 2):
+        for k in range(0, 7):
+            for drive in ("start", "ruti"):
+                rapid.append({"overlap": True, "endrep_in_handler": k, "variant": variant, "drive": drive})
     # the tail of the run thread's stop transition: after it has written STOPPED, before it parks again
     for cmd in ("start", "rut", "step"):
         rapid.append({"overlap": True, "tail": "after-STOPPED-write", "cmd": cmd})
@@ -427,6 +439,8 @@ def overlap_schedules(tier):
 def sched_id(c):
     if "failed_init" in c:
         return "failed-init/%s/%s" % (c["failed_init"], c["then"])
+    if "endrep_in_handler" in c:
+        return "endrep-in-handler/%d/%d/%s" % (c["variant"], c["endrep_in_handler"], c["drive"])
     if "cross" in c:
         return "cross/%s/%s" % (c["cross"], c["target"])
     if "rapid" in c:
@@ -542,6 +556,65 @@ def grammar(out, log, warm_hex, sid):
 
 RAPID_PROG = {"clock": "float", "cap": 10 ** 9, "rep": {"start": fx(0.0), "warmup": fx(0.0), "length": fx(1e15)},
               "root": [["rel", fx(1.0), 0, 5]], "nodes": [[["rel", fx(1.0), 0, 5]]]}
+
+
+def run_endrep_in_handler(c):
+    """The handler of the k-th executed event ends the replication (end_replication() on the run thread).  The
+    command takes effect: no further event is carried out, the stream ends with END_REPLICATION (once, last), the
+    simulator is ENDED and refuses start / step."""
+    from pydsol.core.utils import DSOLError
+    out = Outcome()
+    sid = sched_id(c)
+    out.label("overlap", "endrep-in-handler")
+    prog = PROGS[c["variant"]]
+    ref = RefSim(prog)
+    ref.initialize()
+    ref.run()
+    k = c["endrep_in_handler"]
+    if k >= len(ref.model_trace()):
+        out.label("endrep-in-handler:run-shorter")
+        return out
+    out.nontrivial = True
+    h = Harness(prog)
+    h.rec.subscribe(h.sim)
+    sim = h.sim
+    box = {}
+
+    def on_exec(m, seq, node):
+        if sum(1 for t in m.trace if t[0] != "W") - 1 == k:
+            try:
+                sim.end_replication()
+            except Exception as e:                       # noqa: BLE001
+                box["exc"] = e
+    h.model.on_done = on_exec          # (the last thing the handler does)
+    try:
+        h.initialize()
+        if c["drive"] == "start":
+            err = h.run_piece(["start"])
+        else:
+            err = h.run_piece(["run_up_to_incl", BOUNDS[c["variant"]][2]])
+        if err is not None or "exc" in box:
+            out.fail("overlap-raised-%s:%s" % (type(err or box["exc"]).__name__, sid), repr(err or box["exc"]))
+            return out
+        got = [t for t in h.model.trace if t[0] != "W"]
+        if len(got) != k + 1:
+            out.fail("event-executed-after-end-replication:" + sid,
+                     {"executed": len(got), "want": k + 1, "trace_tail": got[k:k + 4]})
+        elif got != ref.model_trace()[:k + 1]:
+            out.fail("overlap-trace:" + sid, {"got": got[-3:], "want": ref.model_trace()[:k + 1][-3:]})
+        if sim.run_state.name != "ENDED" or sim.replication_state.name != "ENDED":
+            out.fail("overlap-state:" + sid, [sim.run_state.name, sim.replication_state.name])
+        names = [e[0] for e in h.rec.log]
+        if names.count("END_REPLICATION") != 1 or names[-1] != "END_REPLICATION":
+            out.fail("overlap-grammar:" + sid, {"tail": names[-5:], "count": names.count("END_REPLICATION")})
+        for cmd in ("start", "step"):
+            e_ = _issue(sim, h, cmd)
+            if not isinstance(e_, DSOLError):
+                out.fail("accepted-after-end:%s:%s" % (cmd, sid), repr(e_))
+    finally:
+        if h.finish():
+            out.fail("thread-leak", sid)
+    return out
 
 
 def run_failed_init(c):
@@ -985,6 +1058,8 @@ def run_overlap(c):
         return run_cross(c)
     if "failed_init" in c:
         return run_failed_init(c)
+    if "endrep_in_handler" in c:
+        return run_endrep_in_handler(c)
     if "rapid" in c:
         return run_rapid(c)
     if "reentrant" in c:
